@@ -640,25 +640,117 @@ impl Prop for C24 {
         "C24"
     }
     fn rule(&self) -> &'static str {
-        "term graphs of 1-10 nodes (structures of arity 1-3, list cells, partial-string segments whose tail is bound back into the graph, atoms, integers, unbound variables, variable-alias chains; arbitrary back-edges) realised by solving the equation system V_i = rhs_i with =/2 in a generated order, with two roots A and B: random graphs, or a graph and a partially unrolled copy (bisimilar by construction), optionally altered at one node; per case 3-9 operations out of bounded unfolding (functor/arg), acyclic_term/1, ground/1, term_variables/2, ==, \\==, compare/3 both ways, @<, copy_term/2, =/2, each run in its own solution of one query and compared with graph algorithms (finiteness, bisimulation, rational-tree unification, variable order, lazy pre-order standard order when the first difference is at a finite position, copies up to renaming); after every operation except =/2 the hash of all heap cells that existed before it must be unchanged (mark/forwarding bits, reversed pointers); every operation must terminate (worker watchdog); non-trivial = a cycle is reachable and some node has two incoming edges or the graph goes through a list/string cell; distinct by case encoding"
+        "term graphs of 1-10 nodes (structures of arity 1-3, list cells, partial-string segments whose tail is bound back into the graph, atoms, integers, unbound variables, variable-alias chains; arbitrary back-edges) realised by solving the equation system V_i = rhs_i with =/2 in a generated order, with two roots A and B: random graphs, or a graph and a partially unrolled copy (bisimilar by construction), optionally altered at one node; per case 3-9 operations out of bounded unfolding (functor/arg), acyclic_term/1, ground/1, term_variables/2, ==, \\==, compare/3 both ways, @<, copy_term/2, =/2, each run in its own solution of one query and compared with graph algorithms (finiteness, bisimulation, rational-tree unification, variable order, lazy pre-order standard order when the first difference is at a finite position, copies up to renaming); after every operation except =/2 the hash of all heap cells that existed before it must be unchanged (mark/forwarding bits, reversed pointers); every operation must terminate (30 s stall monitor, confirmed alone in a fresh process with a 300 s budget); non-trivial = a cycle is reachable and some node has two incoming edges or the graph goes through a list/string cell; distinct by case encoding"
     }
     fn assumptions(&self) -> Vec<String> {
         vec![
             "functor/3 and arg/3 (used by the bounded unfolding that observes the terms) work on cyclic terms".into(),
             "a total order on rational trees is not defined by the statement: compare/3 is only required to say = exactly for bisimilar terms, to be antisymmetric and repeatable, and to follow the standard order when the first pre-order difference is at a finite position".into(),
-            "a non-terminating operation makes the run inconclusive (watchdog), it is not reported as a violation by this in-process check".into(),
+            "termination: a case that runs for 30 s in the worker (>= 1000x the median case time) is re-run alone in a fresh process with a 300 s budget; only if it does not finish there either it is reported (hang:no-termination); nothing else depends on wall-clock time".into(),
         ]
     }
     fn run_shard(&self, cfg: &ShardCfg) -> ShardResult {
+        // Termination (DESIGN 5.3): a monitor thread watches the progress of this worker. When one
+        // case has been running for STALL_S seconds (>= 1000x the median case time of a few ms and
+        // >= 30 s) the case is re-run alone in a child process with a 10x larger budget; if it
+        // does not finish there either, the worker reports `hang:<ops>` for it and exits.
+        let progress = std::sync::Arc::new(std::sync::atomic::AtomicU64::new(0));
+        let current: std::sync::Arc<std::sync::Mutex<Option<Value>>> = std::sync::Arc::new(std::sync::Mutex::new(None));
+        let done = std::sync::Arc::new(std::sync::atomic::AtomicBool::new(false));
+        {
+            let (progress, current, done) = (progress.clone(), current.clone(), done.clone());
+            let out = cfg.journal.as_ref().and_then(|j| j.parent().map(|p| p.join(format!("shard{}.json", cfg.shard))));
+            std::thread::spawn(move || {
+                let mut last = 0u64;
+                let mut since = std::time::Instant::now();
+                loop {
+                    std::thread::sleep(std::time::Duration::from_millis(500));
+                    if done.load(std::sync::atomic::Ordering::SeqCst) {
+                        return;
+                    }
+                    let p = progress.load(std::sync::atomic::Ordering::SeqCst);
+                    if p != last {
+                        last = p;
+                        since = std::time::Instant::now();
+                        continue;
+                    }
+                    if since.elapsed().as_secs() < STALL_S {
+                        continue;
+                    }
+                    let Some(case) = current.lock().unwrap().clone() else { continue };
+                    let o = run_child("C24", "case", &case, 10 * STALL_S, &[]);
+                    if !o.timed_out {
+                        // the case finishes on its own: the stall was something else (load); keep waiting
+                        since = std::time::Instant::now();
+                        continue;
+                    }
+                    let ops = case["ops"].as_array().map(|a| a.iter().filter_map(|x| x.as_str()).collect::<Vec<_>>().join(",")).unwrap_or_default();
+                    let mut res = ShardResult::default();
+                    res.evaluations = p;
+                    res.failures.push(Failure {
+                        signature: "hang:no-termination".into(),
+                        detail: format!("the case did not finish within {STALL_S} s in the worker nor within {} s alone in a fresh process (operations {ops})", 10 * STALL_S),
+                        case,
+                        kind: "graph".into(),
+                    });
+                    if let Some(out) = &out {
+                        let _ = std::fs::write(out, serde_json::to_vec(&res).unwrap());
+                    }
+                    std::process::exit(0);
+                }
+            });
+        }
+        let check_mon = move |env: &mut Env, c: &Case| -> Verdict {
+            *current.lock().unwrap() = Some(serde_json::to_value(c).unwrap());
+            progress.fetch_add(1, std::sync::atomic::Ordering::SeqCst);
+            check(env, c)
+        };
         let mut d = Driver::new(cfg, "C24");
         let n = cfg.share(cfg.tier.pick(30_000, 1_500_000));
-        d.run("graph", 0, n, 1000, case_strategy(), &mk_env, &check);
+        d.run("graph", 0, n, 1000, case_strategy(), &mk_env, &check_mon);
+        done.store(true, std::sync::atomic::Ordering::SeqCst);
         d.finish()
     }
+    /// replays run the case in a child process so that a non-terminating case is reported
+    /// (`hang:no-termination`) instead of hanging the replay
     fn replay(&self, _kind: &str, case: &Value) -> Verdict {
-        replay_case::<Case, Env>(case, &mk_env, &check)
+        let o = run_child("C24", "case", case, 10 * STALL_S, &[]);
+        if o.timed_out {
+            return Verdict::fail("hang:no-termination", format!("the case did not finish within {} s in a fresh process", 10 * STALL_S));
+        }
+        if o.crashed() || o.code.is_none() {
+            // let the ordinary in-process path report crashes with their details
+            return replay_case::<Case, Env>(case, &mk_env, &check);
+        }
+        let line = o.stdout.lines().find(|l| l.starts_with("VERDICT ")).unwrap_or("").to_string();
+        let mut it = line.splitn(3, ' ');
+        let _ = it.next();
+        match (it.next(), it.next()) {
+            (Some("pass"), _) => Verdict::pass(false, &[]),
+            (Some("discard"), w) => Verdict::Discard(w.unwrap_or("").to_string()),
+            (Some("fail"), Some(rest)) => {
+                let (sig, detail) = rest.split_once(" :: ").unwrap_or((rest, ""));
+                Verdict::fail(sig.to_string(), detail.to_string())
+            }
+            _ => replay_case::<Case, Env>(case, &mk_env, &check),
+        }
+    }
+    /// `vcheck child C24 case <file>`: one case on a fresh machine, verdict on stdout
+    fn child(&self, mode: &str, input: &Value) -> i32 {
+        if mode != "case" {
+            return 2;
+        }
+        match replay_case::<Case, Env>(input, &mk_env, &check) {
+            Verdict::Pass { .. } => println!("VERDICT pass"),
+            Verdict::Discard(w) => println!("VERDICT discard {w}"),
+            Verdict::Fail { signature, detail } => println!("VERDICT fail {signature} :: {}", detail.replace('\n', " ")),
+        }
+        0
     }
     fn watchdog_s(&self, tier: Tier) -> u64 {
-        tier.pick(900, 14400)
+        tier.pick(1500, 14400)
     }
 }
+
+/// seconds without progress after which the running case is examined alone (see run_shard)
+const STALL_S: u64 = 30;
